@@ -398,9 +398,7 @@ func isUntyped(t types.Type) bool {
 
 func (env *specEnv) globalLoad(obj *types.Var) Val {
 	x := env.x
-	n := sym("glob!" + obj.Pkg().Path() + "." + obj.Name())
-	x.sc.declConst(n, "Int")
-	x.sc.assert(app(">", n, "0"))
+	n := x.globalAddr(obj.Pkg().Path() + "." + obj.Name())
 	return x.loadAt(env.h(), Val{ts: []Term{n}}, obj.Type())
 }
 
